@@ -77,7 +77,11 @@ def run_variant(v):
             if viol:
                 fired_any = True
         except AnalysisError as e:
-            out['results'][pid] = dict(analysis_error=str(e), n=0)
+            viol = [i for i in run.items if i['status'] == 'violation']
+            out['results'][pid] = dict(analysis_error=str(e), n=len(viol),
+                                       violations=[dict(construct=i['construct'], loc=i['loc'], detail=i['detail'][:200]) for i in viol[:5]])
+            if viol:
+                fired_any = True
             if v['kind'] == 'mutant':
                 # a vanished anchor fails the run as analysis-broken (exit 2): counts as detected-by-fail-closed
                 out.setdefault('fail_closed', []).append(pid)
